@@ -31,7 +31,7 @@ type modelFn = func(p []int, in []N, aux [][]N) [][]N
 
 // mSplit separates the values of a well-formed notification sequence from its terminal.
 func mSplit(in []N) (vals []int, term N, has bool) {
-	for i, n := range in {
+	for _, n := range in {
 		if n.K == 'N' {
 			if has {
 				panic("c04 model: value after terminal in model input " + traceN(in))
@@ -42,7 +42,6 @@ func mSplit(in []N) (vals []int, term N, has bool) {
 		if has {
 			panic("c04 model: two terminals in model input " + traceN(in))
 		}
-		_ = i
 		term, has = n, true
 	}
 	return
